@@ -143,8 +143,13 @@ func (p *Prog) fieldsOf(v ssa.Value, interproc int) map[string]bool {
 // hashCoverage: all fields reaching any sink of fn. Sinks under a fact that
 // contradicts `assume` are skipped (e.g. runtime == false).
 func (p *Prog) hashCoverage(fn *ssa.Function, assume map[ssa.Value]bool) (map[string]bool, int) {
+	return p.hashCoverageIn(fn, assume, map[*ssa.Function]bool{})
+}
+
+func (p *Prog) hashCoverageIn(fn *ssa.Function, assume map[ssa.Value]bool, seen map[*ssa.Function]bool) (map[string]bool, int) {
 	cov := map[string]bool{}
 	n := 0
+	seen[fn] = true
 	for _, s := range p.hashSinks(fn) {
 		skip := false
 		for _, f := range s.conds {
@@ -162,22 +167,11 @@ func (p *Prog) hashCoverage(fn *ssa.Function, assume map[ssa.Value]bool) (map[st
 			}
 			// map keys: the key of a `range m` (not merely used as a lookup index) reaches the hash
 			backSlice(a, SliceOpts{Interproc: 4, Prog: p, NoLookupIndex: true, Visit: func(x ssa.Value, _ *ssa.Function) {
-				ex, ok := x.(*ssa.Extract)
-				if !ok || ex.Index != 1 {
+				m := keyedMapOf(x)
+				if m == nil {
 					return
 				}
-				nx, ok := ex.Tuple.(*ssa.Next)
-				if !ok {
-					return
-				}
-				rg, ok := nx.Iter.(*ssa.Range)
-				if !ok {
-					return
-				}
-				if _, isMap := rg.X.Type().Underlying().(*types.Map); !isMap {
-					return
-				}
-				for k := range p.fieldsOf(rg.X, 4) {
+				for k := range p.fieldsOf(m, 4) {
 					cov["keys:"+k] = true
 				}
 			}})
@@ -190,6 +184,14 @@ func (p *Prog) hashCoverage(fn *ssa.Function, assume map[ssa.Value]bool) (map[st
 		// helper that ranges over a map parameter and hashes its keys
 		if c, ok := s.instr.(*ssa.Call); ok {
 			if g := c.Call.StaticCallee(); g != nil {
+				// what the helper reads from its own parameters (target.PassEnv inside hashPassEnv(h, target))
+				// reaches the hash as well: an extracted part of the hash function hashes what it hashed inline
+				if !seen[g] && g.Blocks != nil && len(seen) < 12 {
+					sub, _ := p.hashCoverageIn(g, nil, seen)
+					for k := range sub {
+						cov[k] = true
+					}
+				}
 				for idx := range p.hashKeyParams(g) {
 					if idx < len(c.Call.Args) {
 						for k := range p.fieldsOf(c.Call.Args[idx], 4) {
@@ -213,19 +215,11 @@ func (p *Prog) hashKeyParams(g *ssa.Function) map[int]bool {
 	for _, s := range p.hashSinks(g) {
 		for _, a := range s.args {
 			backSlice(a, SliceOpts{NoLookupIndex: true, Visit: func(x ssa.Value, _ *ssa.Function) {
-				ex, ok := x.(*ssa.Extract)
-				if !ok || ex.Index != 1 {
+				m := keyedMapOf(x)
+				if m == nil {
 					return
 				}
-				nx, ok := ex.Tuple.(*ssa.Next)
-				if !ok {
-					return
-				}
-				rg, ok := nx.Iter.(*ssa.Range)
-				if !ok {
-					return
-				}
-				for y := range backSlice(rg.X, SliceOpts{}) {
+				for y := range backSlice(m, SliceOpts{}) {
 					if prm, ok := y.(*ssa.Parameter); ok && prm.Parent() == g {
 						for k, q := range g.Params {
 							if q == prm {
@@ -676,3 +670,56 @@ func (p *Prog) hashHelperKind(g *ssa.Function, depth int) string {
 	}
 	return ""
 }
+
+// keyedMapOf: x is a key of a map - the key of a `range m`, or the sequence maps.Keys(m) - and m is returned.
+func keyedMapOf(x ssa.Value) ssa.Value {
+	switch x := x.(type) {
+	case *ssa.Extract:
+		if x.Index != 1 {
+			return nil
+		}
+		nx, ok := x.Tuple.(*ssa.Next)
+		if !ok {
+			return nil
+		}
+		rg, ok := nx.Iter.(*ssa.Range)
+		if !ok {
+			return nil
+		}
+		if _, isMap := rg.X.Type().Underlying().(*types.Map); !isMap {
+			return nil
+		}
+		return rg.X
+	case *ssa.Call:
+		if calleeName(&x.Call) == "maps.Keys" && len(x.Call.Args) == 1 {
+			return x.Call.Args[0]
+		}
+		// a repository helper that returns the keys of its map parameter (sortedKeys(m))
+		if g := x.Call.StaticCallee(); g != nil && g.Blocks != nil && !keyHelperBusy[g] {
+			keyHelperBusy[g] = true
+			defer delete(keyHelperBusy, g)
+			for _, ret := range returnsOf(g) {
+				for _, res := range ret.Results {
+					for y := range backSlice(res, SliceOpts{NoLookupIndex: true}) {
+						m := keyedMapOf(y)
+						if m == nil {
+							continue
+						}
+						for z := range backSlice(m, SliceOpts{}) {
+							if prm, ok := z.(*ssa.Parameter); ok && prm.Parent() == g {
+								for k, q := range g.Params {
+									if q == prm && k < len(x.Call.Args) {
+										return x.Call.Args[k]
+									}
+								}
+							}
+						}
+					}
+				}
+			}
+		}
+	}
+	return nil
+}
+
+var keyHelperBusy = map[*ssa.Function]bool{}
